@@ -622,6 +622,7 @@ pub fn main(args: &Args) {
             Some(3) => run_e2e(net, c),
             Some(4) => node::run_node(c),
             Some(5) => node::run_pres(c),
+            Some(6) => node::run_wants(c),
             _ => None,
         }));
         match r {
@@ -648,11 +649,12 @@ pub fn main(args: &Args) {
     for _ in 0..ncases {
         let mut r = rng.fork();
         let c = match r.below(100) {
-            0..=34 => gen_recv(&mut r, thorough),
-            35..=64 => gen_send(&mut r, thorough),
-            65..=68 => gen_e2e(&mut r, thorough),
-            69..=91 => node::gen_node(&mut r, thorough),
-            _ => node::gen_pres(&mut r, thorough),
+            0..=29 => gen_recv(&mut r, thorough),
+            30..=54 => gen_send(&mut r, thorough),
+            55..=58 => gen_e2e(&mut r, thorough),
+            59..=87 => node::gen_node(&mut r, thorough),
+            88..=93 => node::gen_pres(&mut r, thorough),
+            _ => node::gen_wants(&mut r, thorough),
         };
         let t = run(&c, &mut net);
         out.emit(&c, &t);
